@@ -17,7 +17,7 @@ RULE = ('strings: all strings of length <= 3 (quick) / <= 4 (thorough) over {a, 
         'integers of 1-30 digits, leading zeros, decimals; identifier paths of 1-4 parts x {plain, back-quoted, dot/space/keyword/'
         'digits-first}; variables; both directions (parse, print); non-trivial = value contains a quote, backslash, dot, keyword '
         'or non-ASCII character; distinct by (direction, kind, spelling, value, dialect)')
-RULE += '; also: CR/LF/control/zero-width characters in literals and names, blank-edged names, names identified by a case mapping (both orders in one process), 17-digit and exponent-range decimals read back by the library'
+RULE += '; bare words that begin or end with a keyword of any lexer; also: CR/LF/control/zero-width characters in literals and names, blank-edged names, names identified by a case mapping (both orders in one process), 17-digit and exponent-range decimals read back by the library'
 ASSUMPTIONS = ['mindsdb dialect: doubled quote -> one quote, \\\' \\" \\\\ -> the escaped character; other backslash pairs are not judged',
                'mysql/sqlite dialects of this library: only the standard doubled-quote rule is demanded',
                'exponent notation (1e3) is outside "integers/decimals" and not judged',
@@ -461,6 +461,16 @@ def run_identifiers(ctx, idx):
     paths = [[p] for p in PART_POOL]
     for _ in range(600 if ctx.tier == 'quick' else 6000):
         paths.append([r.choice(PART_POOL) for _ in range(r.randint(2, 4))])
+    # plain words that merely begin or end with a keyword of one of the lexers (`selected`, `order_id`, `my_from`, `in1`): one name
+    kws = sorted({n.lower() for L in monitors.lexer_classes().values() for n in L.tokens if re.fullmatch(r'[A-Za-z]+', n)})
+    affix = [lambda w: w + 'ed', lambda w: w + '_id', lambda w: 'x' + w, lambda w: 'my_' + w, lambda w: w + '1', lambda w: '_' + w, lambda w: w + w,
+             lambda w: w.upper() + 'x', lambda w: w + 's', lambda w: w.capitalize() + 'Name']
+    nforms = 2 if ctx.tier == 'quick' else len(affix)
+    for wi, w in enumerate(kws):
+        for k in range(nforms):
+            word = affix[(wi + k * 3) % len(affix)](w)
+            if word.lower() not in kws:
+                paths.append([word] if (wi + k) % 3 else ['t', word])
     ID_POS = {
         'select': ('SELECT {I} FROM t', lambda t: t.targets[0]),
         'from': ('SELECT * FROM {I}', lambda t: t.from_table),
